@@ -7,7 +7,7 @@ from project import cfg_proj
 
 MODULE = "TraceGrammar"
 FAMILIES = [("Sat3", "any"), ("Sat3", "any"), ("Bool", "any"), ("Rat", "nocycle"), ("Rat", "acyclic"),
-            ("MaxTimes", "nocycle"), ("Sat2", "any"), ("RatU", "acyclic")]
+            ("MaxTimes", "nocycle"), ("Sat2", "any"), ("RatU", "acyclic"), ("Sat3", "twocycles"), ("Bool", "twocycles")]
 SINGLE = ["trim", "cotrim", "binarize", "separate_start", "separate_terminals", "nullaryremove", "unaryremove",
           "unarycycleremove", "cnf", "renumber", "rename", "unfold", "getitem_start"]
 POSTS = {"cnf", "nonullary", "nounary", "nounarycycle", "arity2", "startoff", "preterminal", "trimmed", "cotrimmed", "nozero"}
